@@ -240,6 +240,15 @@ def rule_crash(ctx):
     R.floor('U2-P3', 'expect/unwrap on cached outputs', n, 3, props=P)
 
 
+def owner_validated(ctx, b):
+    """Is there, in b, a guard on `consistent.contains(x)` (the session's set of tasks validated in this session)?"""
+    for g in b.guards.values():
+        for sc in g.subject_calls():
+            if sc.qname.endswith('HashSet::contains') and sc.args and ctx.has_field(b.orig_operand(sc.args[0]), ctx.roles.f_consistent):
+                return True
+    return False
+
+
 def rule_stale_residue(ctx):
     """C19 U2 (residue readers that can abort the build): the edges recorded by an execution that was
     later aborted (P2: the reserved edge; P3: the reads / writes / requires made before the abort) stay in
@@ -281,7 +290,7 @@ def rule_stale_residue(ctx):
             for sc in g.subject_calls():
                 if is_callee(ctx, sc, roles.get_out) or (sc.name in ('is_some', 'is_none') and any(is_callee(ctx, x, roles.get_out) for x in ancestors(b, b.orig_operand(sc.args[0])).values())):
                     owner_checked = True
-        ok = purged or owner_checked
+        ok = purged or owner_checked or owner_validated(ctx, b)  # the latter is the (stronger) condition of C20's S20-unvalidated-edges
         side = ''
         if kind == 'recorded-writer':
             hr = getattr(ctx, 'ev_hr', None)
